@@ -358,8 +358,9 @@ print('not reproduced: %%r' %% (props,))
 
 @harness('C12', 'supp.assistant.assist[proposals]', twins=('spec-proposals-unsorted',))
 def assist_proposals(run, twin=None):
-    """both completion paths: the proposal list is sorted(<table keys>) and no key that reaches it contains the cursor
-    marker, whatever the table holds (an arbitrary key is followed through the real code)"""
+    """both completion paths: the proposal list is sorted(set(<table keys>)), a key that does not contain the cursor marker reaches it unchanged,
+    and a key that does (the name under the cursor) reaches it as unmark(key): no proposal carries the marker, whatever the table holds (an
+    arbitrary key is followed through the real code)"""
     import supp.util as U
     MARK = U.SOURCE_MARK
     holder = {}
@@ -405,7 +406,7 @@ def assist_proposals(run, twin=None):
             EvalCtx=lambda project: Ctx(), re=ReStub(),
             get_marked_import=lambda tree: None, extract_scope=lambda source, project: object(),
             get_marked_atribute=(lambda tree: anode) if path == 'attribute' else (lambda tree: None),
-            get_marked_name=lambda tree: node, sorted=sorted_stub,
+            get_marked_name=lambda tree: node, sorted=sorted_stub, unmark=lambda n: ('unmarked', n),
             list=lambda x: ('list', x), tuple=lambda x: ('tuple', x), set=lambda x: ('set', x),
             list_packages=lambda project, root, filename: ['<packages>'], print_dump=lambda tree: None),
             comps={0: gen_schema}, comps_optional=True)
@@ -433,12 +434,24 @@ def assist_proposals(run, twin=None):
                 ok_sorted = isinstance(props, list) and props
             prove('%s-proposals-are-sorted-of-the-table' % path, bool(ok_sorted),
                   clause='proposals == sorted(keys that pass the filter): sorted, and duplicate-free because a table yields each key once', path=p)
+            if isinstance(x, tuple) and len(x) == 2 and x[0] == 'set':
+                x = x[1]            # set(...) of the keys: duplicate free whatever the table yields
             if isinstance(x, Filtered):
                 e, src = x.elem, x.coll
             elif isinstance(x, SColl):
                 e, src = x.arbitrary(), x
             else:
                 prove('%s-proposals-come-from-the-table' % path, False, path=p)
+                return
+            if isinstance(e, tuple) and len(e) == 2 and e[0] == 'unmarked':
+                # the key under the cursor: proposed as it is written in the text - unmark(key), whose contract (supp.util.unmark) says that
+                # exactly the mark is removed; this branch is taken only for a key that carries the mark
+                key = e[1]
+                J = z3.Int('J')
+                has_mark = z3.Exists([J], z3.And(J >= 0, J + len(MARK) <= key.n(), key.match_abs(key.lo + J, MARK)))
+                prove('%s-proposals-come-from-the-table' % path, src is table and key is table.arbitrary(),
+                      clause='every proposal is a key of the table, the one under the cursor with the mark removed', path=p)
+                prove('%s-only-a-marked-key-is-rewritten' % path, has_mark, clause='unmark is applied only to a key that contains the mark', path=p)
                 return
             prove('%s-proposals-come-from-the-table' % path, src is table and e is table.arbitrary(),
                   clause='every proposal is a key of the table, unchanged', path=p)
